@@ -1547,6 +1547,30 @@ func genDefaults(ctx *hx.Ctx, emit func(hx.Case)) {
 				}
 			}
 		}
+		// nested defaults under media types without encoder: JSON object parts completed by their own defaults, object
+		// defaults that are completed again, defaults inside members of the part schema
+		{
+			inner := sch("ty", "object", "props", []any{[]any{"k", sch("ty", "integer")}, []any{"m", sch("ty", "string", "dflt", jS("q"))}, []any{"r", sch("ty", "integer", "ro", true, "dflt", jI(7))}})
+			innerReq := sch("ty", "object", "props", []any{[]any{"k", sch("ty", "integer")}, []any{"m", sch("ty", "string", "dflt", jS("q"))}}, "required", []any{"m"})
+			innerAll := sch("ty", "object", "allOf", []any{sch("props", []any{[]any{"m", sch("dflt", jS("q"))}}), sch("required", []any{"m"})})
+			withD := sch("ty", "object", "props", []any{[]any{"k", sch("ty", "integer")}, []any{"m", sch("ty", "string", "dflt", jS("q"))}}, "dflt", jO("k", jI(1)))
+			for _, in := range []any{inner, innerReq, innerAll, withD} {
+				for _, rq := range [][]any{{}, {"o"}} {
+					sm := sch("ty", "object", "props", []any{[]any{"o", in}, []any{"b", sch("ty", "string")}, []any{"l", sch("ty", "array", "items", in)}}, "required", rq)
+					for _, parts := range [][]c06Part{{{name: "o", ct: "application/json", text: `{}`}}, {{name: "o", ct: "application/json", text: `{"k":2}`}, {name: "b", text: "x"}},
+						{{name: "b", text: "x"}}, {{name: "o", ct: "application/json", text: `{"m":"z","r":1}`}}, {{name: "l", ct: "application/json", text: `{}`}, {name: "l", ct: "application/json", text: `{"k":"bad"}`}},
+						{{name: "l", ct: "application/json", text: `{"k":1}`}}, {{name: "o", ct: "application/yaml", text: "k: 3\n"}}} {
+						for _, exro := range []bool{false, true} {
+							for _, skip := range []bool{false, true} {
+								c := mkCase(true, []any{mtEntry("multipart/form-data", sm)}, mct, renderMultipart(bd, parts, false), exro)
+								c["skipDefaults"] = skip
+								emit(c)
+							}
+						}
+					}
+				}
+			}
+		}
 		// text/plain and octet-stream: the value is a string, nothing can be injected
 		for _, ct := range []string{"text/plain", "application/octet-stream"} {
 			for _, s := range []any{sch("ty", "string", "dflt", jS("d")), sch("props", []any{[]any{"a", sch("dflt", jI(1))}}), sch("ty", "object", "props", []any{[]any{"a", sch("dflt", jI(1))}})} {
@@ -2109,6 +2133,12 @@ func randCase0(r *hx.Rng) hx.Case {
 			}
 			if t == "object" {
 				p["props"] = []any{[]any{"k", sch("ty", "integer")}}
+				if r.Chance(30) {
+					p["props"] = []any{[]any{"k", sch("ty", "integer")}, []any{"m", sch("ty", "string", "dflt", jS("q"))}}
+					if r.Chance(30) {
+						p["required"] = []any{"m"}
+					}
+				}
 			}
 			if r.Chance(20) {
 				p["ro"] = true
